@@ -7,6 +7,7 @@ REPLAY: every dumped state is a self-contained case (constructor input + query +
 real tenpy lattice is built and asked the same question.
 """
 import collections
+import concurrent.futures
 import shutil
 import sys
 import time
@@ -22,6 +23,7 @@ INVS = ['OrderIsBijection', 'RoundTrip', 'HelixFormula', 'StdOrderMeaning', 'Eac
 ACTIONS = ['ChooseClass', 'ChooseSize', 'ChooseVariant', 'ChooseBC', 'Build', 'QIndex', 'QCouplings', 'QMulti',
            'QNeighbors', 'QValues']
 WORKERS = 8
+COVERAGE_RUNS = ('orders-1d', 'neighbors', 'couplings-1d', 'helical', 'irregular')  # together they take every action
 
 BASE = dict(Classes=set(), MaxL=3, MaxLx=2, MaxLy=2, NLegs={3}, MaxN=12, MaxShift=1, BcMode='all',
             BcMpsSet={'finite', 'infinite'}, OrderMode='basic', PermMults={7}, Queries=set(), DxCap=4, MultiMod=7,
@@ -425,16 +427,18 @@ class Replayer:
 
 
 # ------------------------------------------------------------------------------------------------
-COVERAGE_RUNS = ('orders-1d', 'neighbors', 'couplings-1d', 'helical', 'irregular')  # together they take every action
-
-
-def run_group(ctx, name, consts):
+def run_tlc(name, consts):
+    """MC stage of one run (executed in a helper thread, so that TLC of the next run overlaps the replay)."""
     t0 = time.time()
     # TLC's -coverage doubles the run time: switched on for the runs that together take every action; for the
     # others the number of states per action is counted from the dump (every state is the result of one action)
     cov = name in COVERAGE_RUNS
     res, dump, d = tlc.mc('Lattice', dict(spec='Spec', constants=consts, invariants=INVS), dump=True, workers=WORKERS,
                           coverage=cov, timeout=6000)
+    return res, dump, d, time.time() - t0
+
+
+def replay_group(ctx, name, res, dump, d, t_tlc):
     try:
         ctx.add_mc('Lattice/' + name, res)
         if res.violated or res.deadlock:
@@ -453,9 +457,9 @@ def run_group(ctx, name, consts):
         shutil.rmtree(d, ignore_errors=True)
     if n != res.distinct:
         raise core.MachineryError('dump of run %s has %d states, TLC reports %d' % (name, n, res.distinct))
-    ctx.notes.setdefault('runs', []).append(dict(name=name, states=res.distinct, tlc_s=round(t1 - t0, 1),
+    ctx.notes.setdefault('runs', []).append(dict(name=name, states=res.distinct, tlc_s=round(t_tlc, 1),
                                                  parse_replay_s=round(time.time() - t1, 1), replayed=rp.nstates))
-    print('  run %-18s states=%-7d tlc=%.1fs parse+replay=%.1fs' % (name, res.distinct, t1 - t0, time.time() - t1))
+    print('  run %-18s states=%-7d tlc=%.1fs parse+replay=%.1fs' % (name, res.distinct, t_tlc, time.time() - t1))
     sys.stdout.flush()
     return rp.nstates
 
@@ -477,11 +481,23 @@ def check(ctx):
                   last=det['query'])
         Replayer(ctx, det.get('group', 'replay')).replay(st)
         return
-    n = 0
-    for name, consts in groups(ctx.tier, ctx.seed):
-        if only and name not in only:
-            continue
-        n += run_group(ctx, name, consts)
+    gs = [(name, consts) for name, consts in groups(ctx.tier, ctx.seed) if not only or name in only]
+    if not gs:
+        raise core.MachineryError('no run selected')
+    fut = None
+    with concurrent.futures.ThreadPoolExecutor(1) as ex:
+        try:
+            fut = ex.submit(run_tlc, *gs[0])
+            for k, (name, consts) in enumerate(gs):
+                res, dump, d, t_tlc = fut.result()
+                fut = ex.submit(run_tlc, *gs[k + 1]) if k + 1 < len(gs) else None
+                replay_group(ctx, name, res, dump, d, t_tlc)
+        finally:
+            if fut is not None:  # an error during the replay: remove the scratch directory of the run in flight
+                try:
+                    shutil.rmtree(fut.result()[2], ignore_errors=True)
+                except Exception:
+                    pass
     missing = [a for a in ACTIONS if ctx.coverage_actions.get(a, (0, 0))[0] == 0]
     if missing and not only:
         raise core.MachineryError('spec actions never taken in MC: %s' % missing)
